@@ -83,6 +83,7 @@ func idOfAny(ev any) int {
 
 func Run(c *Case) *vkit.Outcome {
 	o := &vkit.Outcome{}
+	storekit.SetVariant(vkit.HashOf(c))
 	var inner eventbus.EventStore
 	var sq interface{ Close() error }
 	switch c.Store {
